@@ -33,7 +33,13 @@ func c15EndToEnd(c *Ctx, idx int) {
 	if lossInWindow {
 		window = 300 * time.Millisecond
 	}
-	bed, err := px.NewBed(px.BedConfig{Hosts: total, NumConns: 1, Keyspaces: []string{"ks1"}, RefreshWindow: window, ReconnectBase: time.Millisecond, ReconnectMax: 3 * time.Millisecond})
+	// ... and in half of those the proxy waits longer before it reconnects than the window lasts: the refresh falls due while
+	// there is no control connection
+	rbase, rmax := time.Millisecond, 3*time.Millisecond
+	if lossInWindow && idx%2 == 1 {
+		rbase, rmax = 450*time.Millisecond, 500*time.Millisecond
+	}
+	bed, err := px.NewBed(px.BedConfig{Hosts: total, NumConns: 1, Keyspaces: []string{"ks1"}, RefreshWindow: window, ReconnectBase: rbase, ReconnectMax: rmax})
 	if err != nil {
 		r.Inconc("c15 e2e: cannot start bed: " + err.Error())
 		return
